@@ -8,15 +8,20 @@ package internalsrv
 
 //@ unit internal_handler frames=on props=C03,C12 filter=`internalsrv\.Internal\)\.ServeHTTP$`
 //@ ghost nextCalls int
+//@ // redirectPending abstracts "the response header carries X-Accel-Redirect" (what isInternalRedirect reads): any pass down
+//@ // the chain may set it, ClearHeader removes it
+//@ ghost redirectPending int
 //@ extern invoke:(github.com/tmpim/casket/caskethttp/httpserver.Handler).ServeHTTP
-//@   modifies ghost:nextCalls, URL.Path
-//@   ensures nextCalls == old(nextCalls) + 1
+//@   modifies ghost:nextCalls, ghost:redirectPending, URL.Path
+//@   ensures nextCalls == old(nextCalls) + 1 && (redirectPending == 0 || redirectPending == 1)
 //@ extern (github.com/tmpim/casket/caskethttp/httpserver.Path).Matches
 //@   pure
 //@ func isInternalRedirect
+//@   ensures result == (redirectPending == 1)
 //@ // drops three fields of the response header (proved with this frame in unit helper_frames)
 //@ func (internalResponseWriter).ClearHeader
-//@   modifies MV:map[string][]string, MD:map[string][]string
+//@   modifies MV:map[string][]string, MD:map[string][]string, ghost:redirectPending
+//@   ensures redirectPending == 0
 //@ extern invoke:(net/http.ResponseWriter).Header
 //@   ensures result != nil
 
@@ -24,12 +29,16 @@ package internalsrv
 
 //@ func (Internal).ServeHTTP
 //@   requires r != nil && r.URL != nil && i.Next != nil
-//@   modifies URL.Path, ghost:nextCalls, MV:map[string][]string, MD:map[string][]string
+//@   modifies URL.Path, ghost:nextCalls, ghost:redirectPending, MV:map[string][]string, MD:map[string][]string
+//@   // C12 "an error status without writing gets the error body": when the handler gives up after too many internal redirects
+//@   // (500, nothing written) the script headers of the last discarded reply (X-Accel-Redirect, its Content-Length and
+//@   // Content-Encoding) are gone from the shared response header - whoever writes the error page starts from a clean header
+//@   ensures [no_internal_redirect_reply_is_left_in_the_header] old(redirectPending) == 0 ==> (exists(k, 0, len(i.Paths), protected(k)) || redirectPending == 0)
 //@   ensures [protected_not_served] exists(k, 0, len(i.Paths), protected(k)) ==> (result0 == 404 && result1 == nil && nextCalls == old(nextCalls))
 //@   ensures [bounded_redirects] nextCalls <= old(nextCalls) + 11
 //@   loop 1 invariant 0 <= #i && #i <= len(i.Paths) && nextCalls == old(nextCalls) && r.URL == old(r.URL) && r.URL.Path == old(r.URL.Path)
 //@   loop 1 invariant forall(k, 0, #i, !protected(k))
-//@   loop 2 invariant 0 <= c && c <= 10 && nextCalls == old(nextCalls) + 1 + c && r.URL != nil && forall(k, 0, len(i.Paths), !protected(k))
+//@   loop 2 invariant 0 <= c && c <= 10 && nextCalls == old(nextCalls) + 1 + c && r.URL != nil && forall(k, 0, len(i.Paths), !protected(k)) && (redirectPending == 0 || redirectPending == 1)
 //@   loop 2 decreases 10 - c
 
 //@ unit setup_sweep props=C11,C08 files=setup.go nilchecks=on nonnil_params=on dispenser_variants=on filter=`.`
